@@ -107,6 +107,35 @@ def quiet_process() -> None:
     gc.disable()
 
 
+class WarmupBudgetExceeded(BaseException):
+    """raised by cpu_guard inside the guarded block (BaseException: the code under test catches Exception freely)"""
+
+
+class cpu_guard:
+    """Context: the block gets `seconds` of CPU time of this thread/process (ITIMER_VIRTUAL); then WarmupBudgetExceeded is raised in it.
+    Warm-up extractions run in the parent without the per-run budgets: a change to the code under test that loops on a seed
+    document must not hang the check itself."""
+
+    def __init__(self, seconds: float):
+        self.seconds = seconds
+
+    def __enter__(self):
+        import signal
+
+        def on_alarm(signum, frame):
+            raise WarmupBudgetExceeded()
+
+        self._old = signal.signal(signal.SIGVTALRM, on_alarm)
+        signal.setitimer(signal.ITIMER_VIRTUAL, self.seconds)
+        return self
+
+    def __exit__(self, et, ev, tb):
+        import signal
+        signal.setitimer(signal.ITIMER_VIRTUAL, 0)
+        signal.signal(signal.SIGVTALRM, self._old)
+        return et is WarmupBudgetExceeded  # swallowed: the caller sees a skipped warm-up step
+
+
 class fresh_process_diagnostics:
     """Context: logging and warnings behave as in a freshly started interpreter that configured neither (log records of level WARNING and
     above reach sys.stderr through logging.lastResort, warnings go through the start-up filters) -- the state a command-line run has."""
